@@ -17,7 +17,7 @@ Local Open Scope Z_scope.
 
 Definition is_key_kindb (k : skind) : bool :=
   match k with
-  | KDouble | KFloat | KBytes | KEnum _ | KMsg _ => false
+  | KDouble | KFloat | KBytes | KEnum _ _ | KMsg _ => false
   | _ => true
   end.
 
@@ -126,19 +126,6 @@ Qed.
 Lemma eq_ignore_refl a : eq_ignore_ascii_case a a = true.
 Proof. unfold eq_ignore_ascii_case. apply bytes_eqb_refl. Qed.
 
-Lemma enum_default_iff vals b z :
-  enum_by_name vals b = Some z -> enum_by_number vals z = Some b ->
-  Z.eqb z (enum_default vals)
-  = match enum_by_number vals (enum_default vals) with Some n => bytes_eqb n b | None => false end.
-Proof.
-  intros Hn Hz. destruct vals as [|[n0 z0] r]; [discriminate|]. cbn [enum_default].
-  cbn [enum_by_number]. rewrite Z.eqb_refl.
-  destruct (Z.eqb_spec z z0) as [->|Hne].
-  - cbn [enum_by_number] in Hz. rewrite Z.eqb_refl in Hz. inversion Hz; subst. symmetry. apply bytes_eqb_refl.
-  - destruct (bytes_eqb n0 b) eqn:E; [|reflexivity]. exfalso. apply bytes_eqb_eq in E. subst n0.
-    cbn [enum_by_name] in Hn. rewrite eq_ignore_refl in Hn. inversion Hn; subst. apply Hne. reflexivity.
-Qed.
-
 Section Scalar.
   Variable P : list (list field).
   Variable lossy : bool.
@@ -206,10 +193,11 @@ Section Scalar.
     - (* enum *)
       apply andb_true_iff in Hs. destruct Hs as [Hu Hs]. rewrite (lossy_valid b Hu).
       destruct (enum_by_name vals b) as [z|] eqn:En; [|discriminate].
+      apply andb_true_iff in Hs. destruct Hs as [Hs Hdf]. apply Bool.eqb_prop in Hdf.
       apply andb_true_iff in Hs. destruct Hs as [Hr Hs]. apply in_range_spec in Hr.
       destruct (enum_by_number vals z) as [n|] eqn:Ez; [|discriminate]. apply bytes_eqb_eq in Hs. subst n.
       eexists. split; [reflexivity|]. cbn [ptv_scalar is_default_scalar is_default_value wt_plain lens_plain default_of]. split; [intros _; lia|]. split; [rewrite Ez; reflexivity|].
-      split; [apply enum_default_iff; assumption|].
+      split; [exact Hdf|].
       intros H _. apply Z.eqb_eq in H. subst. reflexivity.
   Qed.
 End Scalar.
